@@ -297,6 +297,11 @@ func c18(c *h.Ctx) {
 		os.MkdirAll(dir, 0o755)
 		defer os.RemoveAll(dir)
 		y := j.cfg.yaml()
+		if i%3 == 1 {
+			// the same configuration with an import of an unrelated file (references are checked on the merged result)
+			y = "import: [\"unrelated.yaml\"]\n" + y
+			h.WriteFile(dir+"/unrelated.yaml", "tasks:\n  unrelated-task:\n    command: [\"true\"]\npipelines:\n  unrelated-pipeline:\n    - task: unrelated-task\n")
+		}
 		f := dir + "/cfg.yaml"
 		h.WriteFile(f, y)
 		// `validate` runs without -c: keep the default-config discovery from walking up into foreign directories
